@@ -372,9 +372,13 @@ package variants
 //@     (t == Boolean ==> okNew(result, err, Boolean) && result.value.(bool) == (v.value.(float64) != f64(0))) &&
 //@     (t != Integer && t != Long && t != Float && t != Boolean ==> failed(result, err))
 //
+// a string that is a whole decimal number is parsed exactly (strconv.ParseInt on the trimmed text); other strings go through
+// the generic converter
+//@ spec wholeOK(s string) bool = ext("strconv.ParseInt.err", "error", ext("strings.TrimSpace", "string", s), 10, 64) == nil
+//@ spec wholeVal(s string) int64 = ext("strconv.ParseInt.val", "int64", ext("strings.TrimSpace", "string", s), 10, 64)
 //@ pred convString(v *Variant, t VariantType, result *Variant, err error) =
-//@     (t == Integer ==> okNew(result, err, Integer) && result.value.(int) == strToInt(v.value.(string))) &&
-//@     (t == Long ==> okNew(result, err, Long) && result.value.(int64) == strToLong(v.value.(string))) &&
+//@     (t == Integer ==> okNew(result, err, Integer) && result.value.(int) == (wholeOK(v.value.(string)) ? wholeVal(v.value.(string)) : strToInt(v.value.(string)))) &&
+//@     (t == Long ==> okNew(result, err, Long) && result.value.(int64) == (wholeOK(v.value.(string)) ? wholeVal(v.value.(string)) : strToLong(v.value.(string)))) &&
 //@     (t == Float ==> okNew(result, err, Float) && result.value == box(strToFloat(v.value.(string)))) &&
 //@     (t == Double ==> okNew(result, err, Double) && result.value == box(strToDouble(v.value.(string)))) &&
 //@     (t == DateTime ==> okNew(result, err, DateTime) && result.value.(time.Time) == strToTime(v.value.(string))) &&
@@ -560,7 +564,7 @@ package variants
 //@     t == Integer ? box(asint(toint(trunc(val.(float64))))) : t == Long ? box(asint64(toint(trunc(val.(float64))))) :
 //@     t == Float ? box(f32(val.(float64))) : t == Boolean ? box(val.(float64) != f64(0)) : nil
 //@ spec cvString(val any, t VariantType) any =
-//@     t == Integer ? box(strToInt(val.(string))) : t == Long ? box(strToLong(val.(string))) : t == Float ? box(strToFloat(val.(string))) :
+//@     t == Integer ? box(asint(wholeOK(val.(string)) ? wholeVal(val.(string)) : strToInt(val.(string)))) : t == Long ? box(asint64(wholeOK(val.(string)) ? wholeVal(val.(string)) : strToLong(val.(string)))) : t == Float ? box(strToFloat(val.(string))) :
 //@     t == Double ? box(strToDouble(val.(string))) : t == DateTime ? box(strToTime(val.(string))) : t == TimeSpan ? box(strToDur(val.(string))) :
 //@     t == Boolean ? box(strToBool(val.(string))) : nil
 //@ spec cvBoolean(val any, t VariantType) any =
